@@ -300,8 +300,33 @@ def end_while_reader_holds_envelope(fam):
     return out
 
 
+def stop_from_inside(fam):
+    """the application stops its server from inside a handler (a "shutdown" RPC): Stop returns, the handler goes on
+    and returns, every other handler is told, Serve returns"""
+    out = []
+    for kind in ('unary', 'bidi', 'ss'):
+        for others in (0, 2):
+            for then in ('ret', 'send+ret'):
+                if kind == 'unary' and then != 'ret':
+                    continue
+                b = B(fam, 'Stop called from inside a %s handler, %d other handlers, then %s' % (kind, others, then), ser=bool(others))
+                for o in range(others):
+                    b.step('sopen', c=20 + o, kind='bidi', hp=[dict(o='ctxwait'), ret(code=1, msg='ctx')])
+                hp = [dict(o='stopsrv')] + ([dict(o='send', pay='bye')] if then != 'ret' else []) + [ret(pay='stopped') if kind == 'unary' else ret()]
+                if kind == 'unary':
+                    b.step('ucall', c=1, pay='shutdown', to=500, hp=hp)
+                else:
+                    b.step('sopen', c=1, kind=kind, to=500, hp=[dict(o='recv')] + hp)
+                    b.step('send', c=1, pay='shutdown')
+                    b.step('recv', c=1, n=2)
+                b.q()
+                b.step('adv', ms=600)
+                out.append(b.q().done())
+    return out
+
+
 def c10(tier, rng, fam='C10'):
-    out = end_while_reader_holds_envelope(fam)
+    out = end_while_reader_holds_envelope(fam) + stop_from_inside(fam)
     # (more unary calls than the 8 workers: the surplus waits in the read loop's hand-off)
     combos = [(0, 0), (1, 0), (0, 1), (2, 2), (10, 0), (9, 1)] if tier == 'quick' else \
         [(u, s) for u in (0, 1, 3, 8, 9, 12) for s in (0, 1, 3, 8)]
@@ -1074,6 +1099,7 @@ def c06(tier, rng, fam='C06'):
     out += unencodable_send(fam)
     out += unencodable_elsewhere(fam)
     out += failed_opens(fam)
+    out += nameless_server(fam)
     out += legal_oddities(fam)
     out += random_programs(fam, 150 if tier == 'quick' else 3000, rng)
     return out
@@ -1871,6 +1897,25 @@ def legal_oddities(fam):
             b.step('ucall', c=1, pay='' if 'empty' in tag else 'q', hp=hp)
             b.step('ucall', c=2, pay='probe', hp=[ret(pay='fine')])
             out.append(b.q().done())
+    return out
+
+
+def nameless_server(fam):
+    """a server without a name (NewServer("")) and clients that name a destination: it serves nothing that is addressed
+    to somebody - the calls wait until their callers give up - and whatever it writes carries the addresses of the
+    request swapped, like any other response"""
+    out = []
+    for ser in (True, False):
+        b = B(fam, 'nameless server, clients naming a destination (%s)' % ('serialising' if ser else 'by reference'), ser=ser, nosrvname=True)
+        b.step('ucall', c=1, pay='q', to=300, hp=[ret(pay='r')])
+        b.step('sopen', c=2, kind='bidi', hp=[dict(o='echo')])
+        b.step('send', c=2, pay='a').step('send', c=2, pay='b').step('close', c=2).step('recv', c=2)
+        b.step('sopen', c=3, kind='ss', to=300, hp=[dict(o='recv'), dict(o='send', pay='x'), ret()])
+        b.step('send', c=3, pay='q').step('recv', c=3)
+        b.q()
+        b.step('adv', ms=400)
+        b.step('cancel', c=2)
+        out.append(b.q().done())
     return out
 
 
